@@ -114,6 +114,8 @@ def simple_ops():
         # rare-by-chance shapes, generated on purpose: an expired file-backed item meets incr / add / set / pull / peek
         st.tuples(st.just('expired-then'), k, st.sampled_from(['incr', 'add', 'set', 'touch', 'pop', 'get']), st.integers(0, 255)),
         st.tuples(st.just('expired-queue-then'), st.sampled_from(['pull', 'peek', 'push', 'peekitem']), st.integers(0, 255)),
+        # a live file-backed item is read by the call that also removes it (or only looks at it): the read-side fault sites
+        st.tuples(st.just('file-item-then'), st.sampled_from(['pull', 'pull-back', 'peek', 'pop', 'get', 'peekitem']), st.integers(0, 255)),
     )
 
 
@@ -194,6 +196,21 @@ def apply_op(cache, clock, op, state):
                 cache.peekitem()
             except KeyError:
                 pass
+    elif name == 'file-item-then':
+        what = op[1]
+        if what in ('pop', 'get'):
+            cache.set('fk', bytes([op[2]]) * 300)
+            (cache.pop if what == 'pop' else cache.get)('fk')
+        else:
+            cache.push(bytes([op[2]]) * 300, prefix='q')
+            if what == 'pull':
+                cache.pull(prefix='q')
+            elif what == 'pull-back':
+                cache.pull(prefix='q', side='back')
+            elif what == 'peek':
+                cache.peek(prefix='q')
+            else:
+                cache.peekitem()
     elif name == 'block':
         with cache.transact():
             for inner in op[1]:
@@ -391,7 +408,7 @@ class FaultedHistories(SubCheck):
                 'cfg': cfg_strategy,
                 'ops': st.lists(ops_strategy(), min_size=1, max_size=12 if tier == 'quick' else 16),
                 'pick': st.integers(0, 10**6),
-                'fault_kind': st.sampled_from(['sql', 'sql', 'sqlfull', 'io', 'rio', 'none']),
+                'fault_kind': st.sampled_from(['sql', 'sql', 'sqlfull', 'io', 'rio', 'rio', 'none']),
                 'site': st.none(),
             }
         )
